@@ -213,6 +213,16 @@ class ExprMixin:
             if isinstance(c, Raise):
                 yield st1, c
                 continue
+            # both arms simple and total: a conditional value instead of two paths
+            if not any(isinstance(n, ast.Call) for n in ast.walk(node.body)) and not any(isinstance(n, ast.Call) for n in ast.walk(node.orelse)):
+                try:
+                    s2 = st1.clone()
+                    va, vb = self.ev1(node.body, s2), self.ev1(node.orelse, s2)
+                    if isinstance(va, Val) and isinstance(vb, Val) and len(s2.pc) == len(st1.pc):
+                        yield st1, ite_val(truth(c), va, vb)
+                        continue
+                except Exception:
+                    pass
             for st2, taken in self.branch(st1, truth(c)):
                 yield from self.ev(node.body if taken else node.orelse, st2)
 
